@@ -444,11 +444,15 @@ def _report(ctx, traces, accepted, bad):
         e = traces[ti]["ev"][ei]
         items.append((len(e["toks"]), e["w"], _compact([(t["k"], t["n"]) for t in e["toks"]]), e, cls))
     items.sort(key=lambda x: (x[0], x[2], x[1], x[3]["html"]))
-    shown, per = 0, {}
+    # report the shortest witness per (kind of failure, markup involved, wrapper), at most 40
+    shown, per = 0, set()
     for ln, w, comp, e, cls in items:
-        if per.get(w, 0) >= 8 or shown >= 40:
+        sn = set(e["seen"])
+        sig = (any(c == "MUST" and i + 1 not in sn for i, c in enumerate(cls)),
+               tuple(sorted({t["k"] + t["n"] for t in e["toks"] if t["k"] not in "TA"})), w)
+        if sig in per or shown >= 40 or sum(1 for q in per if q[:2] == sig[:2]) >= 2:
             continue
-        per[w] = per.get(w, 0) + 1
+        per.add(sig)
         shown += 1
         seen = set(e["seen"])
         lost = [i + 1 for i, c in enumerate(cls) if c == "MUST" and i + 1 not in seen]
